@@ -68,14 +68,15 @@ def _triples():
 
 def faults():
     out = [("genuine",)]
-    # genuine, but the first 1 / 2 handshake requests of the call go unanswered (the genuine reply answers the retransmission)
-    out += [("genuine-late", 1), ("genuine-late", 2)]
     out += [("bodybit", b) for b in range(512)]
     out += [("hdrbit", b) for b in list(range(0, 40)) + [40, 41, 42, 43]]   # bytes 0..4 all bits, byte 5 low nibble
     out += [("length", n) for n in range(0, 81) if n != 64]
     out += [("padded", n) for n in range(1, 16)]     # n extra bytes, announced in the header's padding nibble
     out += [("type", t) for t in range(16) if t != 1]
     out += [("otherkey", i) for i in range(4)]
+    # genuine, but the first 1 / 2 handshake requests of the call go unanswered (the genuine reply answers the retransmission)
+    # (appended last: the quick tier's slices of this list stay what they were)
+    out += [("genuine-late", 1), ("genuine-late", 2)]
     return out
 
 
